@@ -47,6 +47,7 @@ static Case gen_case ()
 	c.seti ("ncue", *rc::gen::weightedOneOf<int> ({ { 3, rangeOf<int> (0, 5) }, { 2, rangeOf<int> (6, 100) }, { 1, rc::gen::element (99, 100) } })) ;
 	c.seti ("nloop", *rc::gen::element (0, 1, 2, 3, 16)) ;
 	c.seti ("frames", *rc::gen::element (1000, 1001, 1500)) ;
+	c.seti ("preset", *rangeOf<int> (0, 3) == 0) ;	// every item set once before with other values
 	c.seti ("late", *rc::gen::element (0, 0, 0, 1, 2)) ;	// 0: all before audio; 1: one more set of every item after typed audio; 2: after sf_write_raw audio
 	return c ;
 }
@@ -125,7 +126,8 @@ static void gen_meta (Meta &m, const Case &c, int maj, int ch)
 	memset (&m.cues, 0, sizeof (m.cues)) ; m.cues.cue_count = (uint32_t) c.geti ("ncue") ; uint32_t frames = (uint32_t) c.geti ("frames") ;
 	for (uint32_t i = 0 ; i < m.cues.cue_count ; i++)
 	{	auto &p = m.cues.cue_points [i] ; p.indx = (int32_t) (i + 1) ; p.position = (uint32_t) r.below (frames) ; p.fcc_chunk = 0x61746164 ; p.chunk_start = 0 ; p.block_start = 0 ; p.sample_offset = (uint32_t) r.below (frames) ;
-		std::string nm = gen_text (r, r.below (3) == 0 ? 0 : 1 + r.below (30), false) ; memcpy (p.name, nm.data (), nm.size ()) ;
+		static const size_t longs [] = { 127, 128, 129, 200, 250, 255 } ;
+		std::string nm = gen_text (r, r.below (3) == 0 ? 0 : r.below (6) == 0 ? longs [r.below (6)] : 1 + r.below (30), false) ; memcpy (p.name, nm.data (), std::min<size_t> (nm.size (), sizeof (p.name) - 1)) ;
 	}
 	memset (&m.inst, 0, sizeof (m.inst)) ; m.inst.gain = (int) r.range (-30, 30) ; m.inst.basenote = (char) r.below (128) ; m.inst.detune = (char) r.range (-50, 50) ;
 	m.inst.velocity_lo = (char) r.below (64) ; m.inst.velocity_hi = (char) (64 + r.below (64)) ; m.inst.key_lo = (char) r.below (64) ; m.inst.key_hi = (char) (64 + r.below (64)) ;
@@ -158,10 +160,16 @@ static bool set_item (SNDFILE *f, int item, Meta &m)
 
 struct Written { MemFile file ; int accepted = 0 ; } ;
 
-static std::string write_file (Written &w, const OpenSpec &s, int items, Meta &m, uint64_t order, const std::vector<short> &audio, long long frames, int late, int late_items)
+static std::string write_file (Written &w, const OpenSpec &s, int items, Meta &m, uint64_t order, const std::vector<short> &audio, long long frames, int late, int late_items, bool preset = false)
 {	SNDFILE *f = open_write_mem (w.file, s) ; if (!f) return std::string ("open_write_failed: ") + sf_strerror (nullptr) ;
 	std::vector<int> seq ; for (int bit = 1 ; bit <= 32 ; bit <<= 1) if (items & bit) seq.push_back (bit) ;
 	Rng r (order) ; for (size_t i = seq.size () ; i > 1 ; i--) std::swap (seq [i - 1], seq [r.below (i)]) ;
+	if (preset)
+	{	// every item is first set to other values (longer history / tag text, more cues and loops): the later set must replace them completely
+		Meta first ; Case c1 ; c1.seti ("seed", 777777) ; c1.seti ("strlen", 2) ; c1.seti ("hist", 3) ; c1.seti ("ncue", 7) ; c1.seti ("nloop", 2) ; c1.seti ("frames", frames) ;
+		gen_meta (first, c1, s.format & SF_FORMAT_TYPEMASK, s.ch) ;
+		for (int it : seq) if (it != I_STR) set_item (f, it, first) ;
+	}
 	for (int it : seq) if (set_item (f, it, m)) w.accepted |= it ;
 	if (late == 2)
 	{	// audio through sf_write_raw only (PCM_16 little endian containers get the same bytes as sf_write_short would give; others: whatever, twin does the same)
@@ -195,11 +203,12 @@ static Result run_case (const Case &c)
 	r.sig.seti ("late", late) ; r.sig.seti ("with_instrument", ((items | unsup) & I_INST) ? 1 : 0) ;
 	Written real, twin ; std::string e ;
 	int late_item = 0 ; if (late) { static const int li [] = { I_BEXT, I_CART, I_CUE, I_INST, I_MAP } ; late_item = li [(uint64_t) c.geti ("order") % 5] ; r.sig.seti ("late_item", late_item) ; r.classes.push_back ("late_item:" + std::to_string (late_item)) ; }
-	e = write_file (real, s, items | unsup, m, (uint64_t) c.geti ("order"), audio, frames, late, late_item) ; if (!e.empty ()) return fail ("write_failed", e) ;
+	bool preset = c.geti ("preset", 0) != 0 ; r.classes.push_back (std::string ("preset:") + (preset ? "1" : "0")) ; r.sig.seti ("preset", preset) ;
+	e = write_file (real, s, items | unsup, m, (uint64_t) c.geti ("order"), audio, frames, late, late_item, preset) ; if (!e.empty ()) return fail ("write_failed", e) ;
 	e = write_file (twin, s, 0, m, 1, audio, frames, late == 2 ? 2 : 0, 0) ; if (!e.empty ()) return fail ("twin_failed", e) ;
 	// supported items set before the audio must have been accepted
 	for (int bit = 1 ; bit <= 32 ; bit <<= 1) if ((items & bit) && !(real.accepted & bit)) { r.sig.seti ("item", bit) ; return fail ("supported_item_refused", "item bit " + std::to_string (bit)) ; }
-	MemFile a ; a.data = real.file.data ; SF_INFO ri ; SNDFILE *g = open_read_mem (a, s, &ri) ; if (!g) return fail ("reopen_failed", sf_strerror (nullptr)) ;
+	MemFile a ; a.data = real.file.data ; SF_INFO ri ; SNDFILE *g = open_read_mem (a, s, &ri) ; if (!g) { static char lg [16384] ; lg [0] = 0 ; sf_command (nullptr, SFC_GET_LOG_INFO, lg, sizeof (lg)) ; size_t n = strlen (lg) ; std::string tail = n > 300 ? lg + n - 300 : lg ; for (auto &ch : tail) if (ch == '\n') ch = '|' ; return fail ("reopen_failed", std::string (sf_strerror (nullptr)) + " log tail: " + tail) ; }
 	MemFile b ; b.data = twin.file.data ; SF_INFO ti ; SNDFILE *t = open_read_mem (b, s, &ti) ; if (!t) { sf_close (g) ; return fail ("twin_reopen_failed", sf_strerror (nullptr)) ; }
 	Result res = r ; auto flag = [&] (const char *kind, int item, const std::string &d) { if (res.ok) { res.ok = false ; res.kind = kind ; res.detail = d ; res.sig.seti ("item", item) ; } } ;
 	// audio
@@ -232,6 +241,11 @@ static Result run_case (const Case &c)
 				std::string exp = norm.substr (0, std::min (norm.size (), hist.size ())) ;
 				if (hist.compare (0, exp.size (), exp) != 0 || (norm.size () <= 200 && hist.size () < norm.size ())) flag ("bext_history_changed", I_BEXT, "set " + std::to_string (m.history.size ()) + " bytes, normalised " + std::to_string (norm.size ()) + ", got " + std::to_string (hist.size ())) ;
 				else if (norm.size () + 40 < sizeof (gb.coding_history) && hist.find ("A=", norm.size ()) != norm.size ()) flag ("bext_history_library_line_missing", I_BEXT, hist.substr (0, 60)) ;
+				else if (norm.size () + 80 < sizeof (gb.coding_history))
+				{	// what follows the caller's text is exactly one line, the library's own (".. T=libsndfile-x.y.z"): anything else was never set by this caller
+					std::string tail = hist.substr (norm.size ()) ; size_t eol = tail.find ("\r\n") ;
+					if (eol == std::string::npos || tail.substr (0, eol).find ("T=libsndfile") == std::string::npos || tail.size () != eol + 2) flag ("bext_history_extra_lines", I_BEXT, "after the " + std::to_string (norm.size ()) + " bytes that were set: [" + tail.substr (0, 120) + "]") ;
+				}
 			}
 		}
 		else if (!(unsup & I_BEXT)) { SF_BROADCAST_INFO tb ; memset (&tb, 0, sizeof (tb)) ; int r2 = sf_command (t, SFC_GET_BROADCAST_INFO, &tb, sizeof (tb)) ; if (rc != r2) flag ("bext_appeared", I_BEXT, "") ; }
